@@ -5,6 +5,7 @@ package smaphash
 import (
 	"fmt"
 	"hash/maphash"
+	"math"
 
 	"verifsim/simrt"
 )
@@ -42,6 +43,16 @@ func Comparable[T comparable](seed Seed, v T) uint64 {
 		h = simrt.Mix(seed.sim, uint64(x))
 	case string:
 		h = simrt.Mix(seed.sim, simrt.HashString(x))
+	case float64:
+		if x == 0 {
+			x = 0 // +0.0 and -0.0 are equal keys: one hash, as hash/maphash.Comparable guarantees
+		}
+		h = simrt.Mix(seed.sim, math.Float64bits(x))
+	case float32:
+		if x == 0 {
+			x = 0
+		}
+		h = simrt.Mix(seed.sim, uint64(math.Float32bits(x)))
 	default:
 		h = simrt.Mix(seed.sim, simrt.HashString(fmt.Sprintf("%#v", v)))
 	}
